@@ -160,7 +160,14 @@ func validTemplates(l *Lab, ctx sdk.Context, r *rand.Rand) ([]sdk.Msg, error) {
 	if err != nil {
 		return nil, err
 	}
+	var hundred []string
+	for i := 0; i < 100; i++ {
+		hundred = append(hundred, fmt.Sprint(3000+i))
+	}
 	return []sdk.Msg{
+		// the largest batch the module accepts, in both directions
+		&forwardertypes.MsgPauseCrossChains{Signer: a, ProtocolId: "PROTOCOL_HYPERLANE", CounterpartyIds: hundred},
+		&forwardertypes.MsgUnpauseCrossChains{Signer: a, ProtocolId: "PROTOCOL_HYPERLANE", CounterpartyIds: hundred},
 		&forwardertypes.MsgPauseProtocol{Signer: a, ProtocolId: "PROTOCOL_HYPERLANE"},
 		&forwardertypes.MsgUnpauseProtocol{Signer: a, ProtocolId: "PROTOCOL_HYPERLANE"},
 		&forwardertypes.MsgPauseCrossChains{Signer: a, ProtocolId: "PROTOCOL_CCTP", CounterpartyIds: []string{"0", "5"}},
